@@ -42,6 +42,9 @@ func c06Catalogue() []Case {
 			Clients: [][]COp{{set(0, 1)}, {set(0, 2)}, {set(0, 3)}}},
 		{Prof: "c06", Keys: []string{"x"}, Epilogue: true, Note: "writer || gc || gc",
 			Prologue: []COp{set(0, 1), set(0, 2), set(0, 3)}, Clients: [][]COp{{set(0, 4), get(0)}, {{K: "gc"}}, {{K: "gc"}}}},
+		{Prof: "c06", Keys: []string{"x"}, Epilogue: true, Deep: true, Note: "writer || RC tx write-then-read || observer",
+			Prologue: []COp{{K: "begin", Slot: 1, Lvl: 1}},
+			Clients:  [][]COp{{set(0, 2)}, {{K: "set", Slot: 1, Key: 0, Len: 3}, {K: "get", Slot: 1, Key: 0}}, {get(0)}}},
 		{Prof: "c06", Keys: []string{"x"}, Epilogue: true, Note: "RC tx read-own-write || autocommit writer",
 			Prologue: []COp{{K: "begin", Slot: 1, Lvl: 1}},
 			Clients:  [][]COp{{{K: "set", Slot: 1, Key: 0, Len: 2}, {K: "get", Slot: 1, Key: 0}, {K: "commit", Slot: 1}}, {set(0, 5), get(0)}}},
